@@ -383,7 +383,8 @@ class CursorAnalysis:
             # (ssl->activeVersion & K) with no compiled-in version in K can never be true
             if truth and self.compiled_in is not None and l_ is not None and l_.get("k") == "mem" \
                     and l_.get("f") == "activeVersion" and r_ is not None and r_.get("k") == "int" \
-                    and (r_["v"] & self.compiled_in) == 0:
+                    and r_["v"] != 0 and (r_["v"] & ~0xfff) == 0 and (r_["v"] & self.compiled_in) == 0:
+                # K consists of protocol-version bits only (bits 0..11; not the v_tls_negotiated flag)
                 return [(None, None, -1)]
             if truth and l_ is not None and l_.get("k") == "mem" and l_.get("f") == "activeVersion" \
                     and r_ is not None and r_.get("k") == "int":
@@ -1179,6 +1180,25 @@ class CursorAnalysis:
             return self
         IN = {fn.entry: self.entry_state()}
         EV = {fn.entry: frozenset()}
+        # widening points: targets of back edges (DFS)
+        heads = set()
+        color = {}
+        stack_ = [(fn.entry, iter(cu.succs(fn, fn.entry)))]
+        color[fn.entry] = 1
+        while stack_:
+            node, it = stack_[-1]
+            adv = False
+            for s_ in it:
+                if color.get(s_) == 1:
+                    heads.add(s_)
+                elif s_ not in color:
+                    color[s_] = 1
+                    stack_.append((s_, iter(cu.succs(fn, s_))))
+                    adv = True
+                    break
+            if not adv:
+                color[node] = 2
+                stack_.pop()
         self._new_evens = {}
         visits = {}
         work = [fn.entry]
@@ -1234,7 +1254,7 @@ class CursorAnalysis:
                     old = IN[s]
                     j = old.join(zz)
                     visits[s] = visits.get(s, 0) + 1
-                    if visits[s] > 3:
+                    if visits[s] > 3 and (s in heads or visits[s] > 40):
                         j = old.widen(j)
                     nev = EV[s] & frozenset(ev_out.items())
                     if not j.leq(old) or nev != EV[s]:
